@@ -80,6 +80,7 @@ class Obj:
         self.opaque_methods = opaque_methods or {}
         self.opaque_params = {}      # opaque method name -> tuple of expected parameter names
         self.missing = set()         # attribute names the object does not have (AttributeError)
+        self.isa = set()             # class names an opaque object is an instance of
         self.writes = []
 
     def __repr__(self):
@@ -140,6 +141,7 @@ class Interp:
         self._table_cache = {}
         self.integrals = {}
         self.n_objects = 0
+        self.extrema = {}             # MAX{..}/MIN{..} atom -> list of argument values
         self.roots = {}               # root atom -> polynomial coefficients (highest power first)
         self.prefixes = None
 
@@ -1202,6 +1204,13 @@ def builtin_call(I, fr, name, args, kwargs, n):
             tn = x.name if isinstance(x, Builtin) else (x if isinstance(x, str) else None)
             if isinstance(x, ExtRef):
                 tn = '.'.join(x.alias[1:])
+            if isinstance(x, ClassInfo):
+                if isinstance(v, Obj):
+                    if v.ci is not None:
+                        res = res or (x in v.ci.mro)
+                    elif x.name in v.isa:
+                        res = True
+                continue
             if tn == 'str':
                 res = res or isinstance(v, str)
             elif tn == 'dict':
@@ -1303,6 +1312,12 @@ def bound_native(I, fr, bn, args, kwargs, n):
         return '<formatted>'
     if isinstance(b, str) and name in ('lower', 'upper', 'strip'):
         return getattr(b, name)()
+    if isinstance(b, str) and name == 'split' and all(isinstance(a, str) for a in args):
+        return ListV(list(b.split(*args)))
+    if isinstance(b, str) and name == 'replace' and len(args) == 2 and all(isinstance(a, str) for a in args):
+        return b.replace(*args)
+    if isinstance(b, str) and name in ('startswith', 'endswith') and all(isinstance(a, str) for a in args):
+        return getattr(b, name)(*args)
     raise Unsupported('method %s on %r' % (name, b), n)
 
 
@@ -1473,11 +1488,22 @@ def _np_minmax(which):
                 I.D.kind[name] = 'root'
                 return Rat.atom(name)
         if isinstance(v, ListV) and v.items:
-            best = v.items[0]
-            for x in v.items[1:]:
-                if I.compare('<' if which == 'min' else '>', x, best, n):
-                    best = x
-            return best
+            try:
+                best = v.items[0]
+                for x in v.items[1:]:
+                    if I.compare('<' if which == 'min' else '>', x, best, n):
+                        best = x
+                return best
+            except Unsupported:
+                pass
+            if all(isinstance(x, Rat) for x in v.items):
+                # uninterpreted extremum of a finite set of scalars (order-insensitive, duplicates merged)
+                uniq = {}
+                for x in v.items:
+                    uniq[repr(x)] = x
+                name = '%s{%s}' % (which.upper(), ' | '.join(sorted(uniq)))
+                I.extrema[name] = list(uniq.values())
+                return I.D.sym(name)
         raise Unsupported('np.%s operand' % which, n)
     return h
 
@@ -1533,10 +1559,29 @@ def _warn(I, fr, args, kwargs, n):
     return None
 
 
+def _table_keys(I, fname):
+    """keys of the single dict literal inside pmutt.constants.<fname>"""
+    cache = I.__dict__.setdefault('_const_keys', {})
+    if fname not in cache:
+        m = I.repo.module('pmutt.constants')
+        fn = m.functions.get(fname)
+        keys = None
+        if fn is not None:
+            for nd in ast.walk(fn):
+                if isinstance(nd, ast.Assign) and isinstance(nd.value, ast.Dict):
+                    keys = {k.value for k in nd.value.keys if isinstance(k, ast.Constant)}
+        if keys is None:
+            raise AnchorError('table of pmutt.constants.%s not found' % fname)
+        cache[fname] = keys
+    return cache[fname]
+
+
 def _c_R(I, fr, args, kwargs, n):
     u = _arg(args, kwargs, 0, 'units')
     kb, Na = I.D.sym('kb'), I.D.sym('Na')
     if isinstance(u, str):
+        if u not in _table_keys(I, 'R'):
+            raise _RaisedExc(Raised('KeyError', n))
         parts = u.split('/')
         f = I.unit(parts[0])
         for p in parts[1:]:
@@ -1589,6 +1634,14 @@ def _c_convert(I, fr, args, kwargs, n):
         if ini == fin:
             return num if num is not None else C(0)
         raise Unsupported('temperature conversion inside a numeric getter', n)
+    # same refusal rules as the real function (type_dict): unknown unit or different quantity type
+    m = I.repo.module('pmutt.constants')
+    td = m.assigns.get('type_dict', [None])[-1]
+    if isinstance(td, ast.Dict):
+        types = {k.value: v.value for k, v in zip(td.keys, td.values)
+                 if isinstance(k, ast.Constant) and isinstance(v, ast.Constant)}
+        if ini not in types or fin not in types or types[ini] != types[fin]:
+            raise _RaisedExc(Raised('ValueError', n))
     f = I.unit(fin) / I.unit(ini)
     if num is None:
         return f
